@@ -35,6 +35,7 @@ var fragments = []string{
 	"a", "b", "b:c", "*", "p:*", "div", "and", "or", "mod", "(", ")", "[", "]", "/", "//", "..", ".", "::", ":", "@", "$", ",", "|",
 	"+", "-", "=", "!=", "<", "<=", ">", ">=", "!", "'lit'", "\"lit\"", "'", "\"", "1", "1.5", ".5", "1e5", "1e", "1.2.3",
 	"current()", "deref(", "count(", "text()", "node()", "child::", "true()", "concat(", "string(", "xml", "XmL:a",
+	"site-fn()", "site-x(1)", "nosuch()", "unknown-fn(", "site-fn(",
 	"\xff", "\x80", "\xc3", "\xe2\x82", "\xf0\x9f", "\xed\xa0\x80", "é", "·", "�", " ", "\t", "\n", "\r", "\x00", "#", "~", "{", "\\",
 }
 
@@ -55,13 +56,23 @@ func build(grammar, src string, withMap bool) (*xpath.Machine, error) {
 		return expr.NewExprMachine(src, mf)
 	case "path_eval":
 		return path_eval.NewPathEvalMachine(src, mf, "mod:1")
+	case "expr_custom":
+		return expr.NewExprMachineWithCustomFunctions(src, mf)
+	case "path_eval_custom":
+		// a user function checker that vouches for names starting with "site-" and declines every other one
+		return path_eval.NewPathEvalMachineWithCustomFns(src, mf, "mod:1", func(name string) (*xpath.Symbol, bool) {
+			if strings.HasPrefix(name, "site-") {
+				return xpath.NewDummyFnSym(name), true
+			}
+			return nil, false
+		})
 	default:
 		return leafref.NewLeafrefMachine(src, mf)
 	}
 }
 
 func genCompile(t *rapid.T) CompileCase {
-	g := []string{"expr", "path_eval", "leafref"}[rapid.IntRange(0, 2).Draw(t, "grammar")]
+	g := []string{"expr", "path_eval", "leafref", "expr_custom", "path_eval_custom"}[rapid.IntRange(0, 4).Draw(t, "grammar")]
 	var in []byte
 	switch rapid.IntRange(0, 3).Draw(t, "kind") {
 	case 0:
@@ -89,6 +100,9 @@ func genCompile(t *rapid.T) CompileCase {
 	return CompileCase{Grammar: g, Input: in, MapFn: rapid.Bool().Draw(t, "mapfn")}
 }
 
+// recent: the last constructions of this process (diagnostics for hangs caused by leaked global state)
+var recent []string
+
 // markerOK: the text contains the expression with " [X] " inserted at some position.
 func markerOK(text, src string) bool {
 	for i := 0; i <= len(src); i++ {
@@ -104,9 +118,14 @@ func checkCompile(c CompileCase) fw.Outcome {
 	out := fw.Outcome{Labels: []string{"grammar:" + c.Grammar}}
 	var m *xpath.Machine
 	var err error
+	recent = append(recent, fmt.Sprintf("%s:%q", c.Grammar, src))
+	if len(recent) > 6 {
+		recent = recent[1:]
+	}
 	done := fw.WithTimeout(20, func() { m, err = build(c.Grammar, src, c.MapFn) })
 	if !done {
-		out.Violation = fmt.Sprintf("%s constructor did not return within the watchdog on %q", c.Grammar, src)
+		// a constructor that blocks may be the victim of a lock an earlier construction left behind: name the history
+		out.Violation = fmt.Sprintf("%s constructor did not return within the watchdog on %q; constructions before it in this process (oldest first): %s", c.Grammar, src, strings.Join(recent[:len(recent)-1], " ; "))
 		return out
 	}
 	valid := utf8.Valid(c.Input)
